@@ -10,7 +10,7 @@
     unbounded [Z] in the model (strings with 8*len+7 >= 2^31 are outside the
     statement: their bit positions do not fit New's int32 arguments). *)
 From Coq Require Import ZArith List Bool.
-From Low Require Import Lib.MachInt Lib.Bits Lib.BitSeq Lib.Bytes Lib.Lex Lib.Pack_bw Lib.Val Model.Bitstr Spec.BitstrSpec Spec.BitstrSearchSpec Proofs.BitstrProofs Proofs.BitstrSearchProofs.
+From Low Require Import Lib.MachInt Lib.Bits Lib.BitSeq Lib.Bytes Lib.Lex Lib.Pack_bw Lib.Val Model.Bitstr Model.Bitstr32 Spec.BitstrSpec Spec.BitstrSearchSpec Proofs.BitstrProofs Proofs.BitstrSearchProofs Proofs.Bitstr32Proofs.
 Import ListNotations.
 Open Scope Z_scope.
 
@@ -153,6 +153,43 @@ Theorem C09_cmp_new_extend : forall s t1 t2, bytes_ok s -> 0 <= t1 <= t2 -> t2 <
 Proof. exact Cmp_New_extend. Qed.
 Print Assumptions C09_cmp_new_extend.
 
+(** * WIDENED: the int32 arithmetic of New / Len made explicit (Model/Bitstr32.v; the
+    protocol operations run this model) *)
+
+(** below the top of the int32 range the wraps are invisible … *)
+Theorem C09_new32_eq : forall s f t, 0 <= f <= t -> t + 7 < 2 ^ 31 -> New32 s f t = New s f t.
+Proof. exact New32_eq. Qed.
+Print Assumptions C09_new32_eq.
+
+Theorem C09_len32_eq : forall bs, 8 * zlen bs < 2 ^ 31 -> bytes_ok bs -> Len32 bs = Len bs.
+Proof. exact Len32_eq. Qed.
+Print Assumptions C09_len32_eq.
+
+(** … so C09_new and C09_len hold of the int32 model on that range *)
+Theorem C09_new32 : forall s f t, bytes_ok s -> 0 <= f <= t -> t <= 8 * zlen s -> t + 7 < 2 ^ 31 ->
+  New32 s f t = Some (encB (B s f t)).
+Proof. exact New32_encB. Qed.
+Print Assumptions C09_new32.
+
+Theorem C09_len32 : forall b, 8 * zlen (encB b) < 2 ^ 31 -> Len32 (encB b) = Some (zlen b).
+Proof. exact Len32_encB. Qed.
+Print Assumptions C09_len32.
+
+(** FINDING (boundary): the hypothesis [toBit + 7 < 2^31] cannot be dropped.  Within 7
+    bits of MaxInt32, [(toBit+7)>>3] overflows int32 and [make] gets a negative length,
+    whatever the string: New panics although from/to are valid int32 values … *)
+Theorem C09_new32_top_panics : forall s f t, 0 <= f <= t -> 2 ^ 31 - 7 <= t < 2 ^ 31 ->
+  New32 s f t = None.
+Proof. exact New32_top. Qed.
+Print Assumptions C09_new32_top_panics.
+
+(** … and such a call lies inside the property's literal domain 0 <= from <= to <= 8*len(s)
+    (a string of 2^28 bytes; replayed on the real code: "makeslice: len out of range"). *)
+Theorem C09_new_full_int32_range_refuted : exists s f t,
+  bytes_ok s /\ 0 <= f <= t /\ t <= 8 * zlen s /\ in_i32 f /\ in_i32 t /\ New32 s f t = None.
+Proof. exact New32_top_witness. Qed.
+Print Assumptions C09_new_full_int32_range_refuted.
+
 (** * non-vacuity: the hypotheses are satisfiable and the statements say something
     ("abc" = 0x61 0x62 0x63; the doc example New("abc", 5, 12)) *)
 Example C09_new_nonvacuous :
@@ -218,4 +255,16 @@ Example C09_search_nonvacuous :
 Proof.
   cbv zeta. repeat match goal with |- _ /\ _ => split end; try (vm_compute; reflexivity).
   repeat (apply Forall_cons; [apply bytes_okb_ok; reflexivity|]); apply Forall_nil.
+Qed.
+
+Example C09_new32_nonvacuous :
+  New32 [97; 98; 99] 5 12 = Some [0x61; 0x60; 0xf0] /\ Len32 [0x61; 0x60; 0xf0] = Some 12 /\
+  0 <= 5 <= 12 /\ 12 + 7 < 2 ^ 31 /\
+  (* the top of the range: the string is never inspected *)
+  0 <= 2 ^ 31 - 4 <= 2 ^ 31 - 1 /\ New32 [] (2 ^ 31 - 4) (2 ^ 31 - 1) = None /\
+  i32 (2 ^ 31 - 1 + 7) = - 2 ^ 31 + 6 /\
+  (* just below it nothing wraps: an empty string is rejected by the slice expression, not by make *)
+  New32 [] (2 ^ 31 - 12) (2 ^ 31 - 9) = None /\ New [] (2 ^ 31 - 12) (2 ^ 31 - 9) = None.
+Proof.
+  repeat match goal with |- _ /\ _ => split end; try (vm_compute; reflexivity); vm_compute; congruence.
 Qed.
